@@ -8,6 +8,6 @@ CONSTANTS
  BuilderCallsOf <- NoBuilderCalls
  MaxHist = 1000000
  StaleCaseFlag = FALSE
-INVARIANTS TypeOK InvDeliveries InvPrefixLaw InvFilterLaw InvRouterLaw InvFanoutLaw InvCompose InvBuilder InvHandleTargets InvUpdateOnce
+INVARIANTS TypeOK InvDeliveries InvPure InvPrefixLaw InvFilterLaw InvRouterLaw InvFanoutLaw InvCompose InvBuilder InvHandleTargets InvUpdateOnce
 POSTCONDITION TraceAccepted
 CHECK_DEADLOCK FALSE
